@@ -352,4 +352,101 @@ theorem dispatch_spec (e : End) (flows : List Flow) (fr : Frame) :
           refine ⟨h1, i + 1, g, q, w', by simpa using h2, h3, h4, h5, h6, ?_⟩
           simp only [modifyAt]; rw [h7]
 
+/-! ### endpoint-only events, and a freshly accepted flow -/
+
+theorem FlowOK.envApp {cm sm : MuxL} {f : Flow} (h : FlowOK cm sm f) (e' : ESock)
+    (hc : e'.consumed = f.app.consumed) (hd : e'.delivered = f.app.delivered)
+    (hs : e'.sawShut = f.app.sawShut) : FlowOK cm sm { f with app := e' } := by
+  have e1 : upSrc cm { f with app := e' } = upSrc cm f := by
+    unfold upSrc; split <;> simp_all [SV, goneSrc]
+  have e2 : downSink { f with app := e' } = downSink f := by
+    unfold downSink; split <;> simp_all [KV, goneSink]
+  exact ⟨by rw [e1]; exact h.up, by rw [e2]; exact h.down, h.cchan, h.schan⟩
+
+theorem FlowOK.envDst {cm sm : MuxL} {f : Flow} (h : FlowOK cm sm f) (e' : ESock)
+    (hc : e'.consumed = f.dst.consumed) (hd : e'.delivered = f.dst.delivered)
+    (hs : e'.sawShut = f.dst.sawShut) : FlowOK cm sm { f with dst := e' } := by
+  have e1 : upSink { f with dst := e' } = upSink f := by
+    unfold upSink; split <;> simp_all [KV, goneSink]
+  have e2 : downSrc sm { f with dst := e' } = downSrc sm f := by
+    unfold downSrc; split <;> simp_all [SV, goneSrc]
+  exact ⟨by rw [e1]; exact h.up, by rw [e2]; exact h.down, h.cchan, h.schan⟩
+
+theorem noStream_of_owned {cs : List Nat} {q : List Frame} {c : Nat} (h : Owned cs q) (hc : c ∉ cs) :
+    noStream c q := by
+  intro fr hfr
+  cases hs : isStream c fr with
+  | false => rfl
+  | true =>
+    exfalso
+    simp only [isStream, Bool.and_eq_true, beq_iff_eq, Bool.or_eq_true] at hs
+    have : isStreamCmd fr.cmd = true := by
+      simp only [isStreamCmd, Bool.or_eq_true, beq_iff_eq]
+      rcases hs.2 with (h1 | h1) | h1
+      · exact Or.inl (Or.inl (Or.inl h1))
+      · exact Or.inl (Or.inl (Or.inr h1))
+      · exact Or.inl (Or.inr h1)
+    have := h fr hfr this
+    rw [hs.1] at this
+    exact hc this
+
+theorem eofClean_of_noStream (c : Nat) (q : List Frame) (h : noStream c q) : eofClean c q := by
+  induction q with
+  | nil => trivial
+  | cons fr rest ih =>
+    refine ⟨fun _ => dataOf_noStream c rest (noStream_tail _ _ _ h), ih (noStream_tail _ _ _ h)⟩
+
+theorem FlowOK.fresh (cm sm cm' : MuxL) (c : Nat) (p : ProxyS)
+    (hp : p = { sw := {}, mw := { chan := c }, sockFirst := true })
+    (hcm : cm'.out = cm.out ++ [⟨c, CONNECT, []⟩]) (h1 : noStream c cm.out) (h2 : noStream c sm.out) :
+    FlowOK cm' sm { chan := c, c := some p } := by
+  subst hp
+  have hcd : isData c ⟨c, CONNECT, []⟩ = false := by
+    simp [isData]; exact fun h => absurd h.symm cmds_distinct.2.2.1
+  have hce : isEof c ⟨c, CONNECT, []⟩ = false := by
+    simp [isEof]; exact fun h => absurd h.symm cmds_distinct.2.2.2.2.1
+  have hdo : dataOf c cm'.out = [] := by
+    rw [hcm, dataOf_append, dataOf_noStream c _ h1, dataOf_single_other _ _ hcd]; rfl
+  have hne : hasEof c cm'.out = false := by
+    rw [hcm, hasEof_append, hasEof_noStream c _ h1]; simp [hasEof, hce]
+  refine ⟨?_, ?_, ?_, ?_⟩
+  · refine { pre := ?_, exact := ?_, shutOk := ?_, conn := ?_, fresh := ?_, clean := ?_, eofNM := ?_,
+             gone := ?_, dead := ?_, srcBuf := ?_, snkBuf := ?_, srcEv := ?_, snkEv := ?_ }
+    all_goals simp only [upSrc, upSink, SV, goneSink]
+    · exact List.prefix_refl _
+    · right; exact ⟨[], by simp [hdo], by simp⟩
+    · intro h; cases h
+    · intro _; exact ⟨trivial, by rw [hcm]; exact connectAhead_of_noStream c _ [] h1⟩
+    · intro h; cases h
+    · rw [hcm]
+      exact eofClean_append_noData _ _ _ (eofClean_of_noStream c _ h1) (eofClean_single _ _)
+        (fun _ => dataOf_single_other _ _ hcd)
+    · intro h; rw [hne] at h; cases h
+    · intro h; cases h
+    · intro h; cases h
+    · intro h; cases h
+    · intro _; trivial
+    · intro _; trivial
+    · intro h; cases h
+  · refine { pre := ?_, exact := ?_, shutOk := ?_, conn := ?_, fresh := ?_, clean := ?_, eofNM := ?_,
+             gone := ?_, dead := ?_, srcBuf := ?_, snkBuf := ?_, srcEv := ?_, snkEv := ?_ }
+    all_goals simp only [downSrc, downSink, KV, goneSrc]
+    · exact List.prefix_refl _
+    · right; exact ⟨[], by simp [dataOf_noStream c _ h2], by simp⟩
+    · intro _ h; cases h
+    · intro h; cases h
+    · intro _; exact ⟨trivial, trivial, h2⟩
+    · exact eofClean_of_noStream c _ h2
+    · intro h; rw [hasEof_noStream c _ h2] at h; cases h
+    · intro _ h; rcases h with h | h <;> cases h
+    · intro _ h; cases h
+    · intro _; trivial
+    · intro h; cases h
+    · intro h; cases h
+    · intro _; trivial
+  · intro q hq
+    simp only [Option.some.injEq] at hq
+    subst hq; exact ⟨rfl, rfl⟩
+  · intro q hq; cases hq
+
 end Sshuttle.Tunnel
